@@ -14,7 +14,7 @@ def cpair(re, im=0.0):
     return [fp(re), fp(im)]
 
 
-def block(rng, kind, span, grow_ok=True):
+def block(rng, kind, span, grow_ok=True, amp=1.0):
     """returns (block dict, list of initial values (floats), width, growth rate, lipschitz)"""
     if kind == "zero":
         return {"k": "zero", "p": []}, [rng.uniform(-1, 1)], 1, 0.0, 0.0
@@ -23,13 +23,13 @@ def block(rng, kind, span, grow_ok=True):
         if lam > 0 and lam * span > 4.0:
             lam = -lam
         b = rng.uniform(-1, 1)
-        return {"k": "lin", "p": [fp(lam), fp(b)]}, [rng.uniform(0.3, 1.5) * rng.choice([-1, 1])], 1, max(lam, 0), abs(lam)
+        return {"k": "lin", "p": [fp(lam), fp(b)]}, [amp * rng.uniform(0.3, 1.5) * rng.choice([-1, 1])], 1, max(lam, 0), abs(lam)
     if kind == "rot":
         a = rng.uniform(-1.0, 0.5)
         if a > 0 and a * span > 4.0:
             a = -a
         w = rng.uniform(0.5, 3.0)
-        return {"k": "rot", "p": [fp(a), fp(w)]}, [rng.uniform(0.3, 1.5), rng.uniform(-1, 1)], 2, max(a, 0), math.hypot(a, w)
+        return {"k": "rot", "p": [fp(a), fp(w)]}, [amp * rng.uniform(0.3, 1.5), amp * rng.uniform(-1, 1)], 2, max(a, 0), math.hypot(a, w)
     if kind == "tv":
         a = rng.uniform(-1, 1)
         b = rng.uniform(-1, 1)
@@ -66,14 +66,14 @@ def block(rng, kind, span, grow_ok=True):
 SMOOTH_KINDS = ["lin", "rot", "tv", "logistic", "recip", "forcing", "relax", "rest"]
 
 
-def system(rng, dim, span, t0, kinds=None):
+def system(rng, dim, span, t0, kinds=None, amp=1.0):
     """block-diagonal smooth system of dimension dim; returns (rhs, y0 complex pairs, lipschitz bound)"""
     kinds = kinds or SMOOTH_KINDS
     blocks, y0, lip = [], [], 0.0
     left = dim
     while left > 0:
         kind = rng.choice([k for k in kinds if not (k == "rot" and left < 2)] or ["lin"])
-        b, init, width, growth, L = block(rng, kind, span)
+        b, init, width, growth, L = block(rng, kind, span, amp=amp)
         if kind == "tv":
             # y' = (a + b t) y ; keep the exponent bounded over [t0, t0+span]
             a = rng.uniform(-1, 1)
@@ -115,6 +115,11 @@ def random_config(rng, solver, long_ok=True):
     else:
         steps = rng.uniform(200.0, 2000.0)
     span = steps * dtmax
+    if rng.random() < 0.15:
+        # the interval ends much closer to zero than one step is long: time + (end - time) is then not
+        # exact in floating point, and the final point must still be the ending time itself
+        t1 = rng.choice([1.0, -1.0]) * dtmax * 10.0 ** (-rng.uniform(0.3, 3.0))
+        return t1 - span, t1, dtmin, dtmax, tol, span
     return t0, t0 + span, dtmin, dtmax, tol, span
 
 
@@ -137,7 +142,7 @@ def generic_system(rng, dim):
 HIGH = {"rk45", "adams5", "bdf6"}
 
 
-def accuracy_case(rng, solver, kinds, tol, dim=None, span=None, cx=False):
+def accuracy_case(rng, solver, kinds, tol, dim=None, span=None, cx=False, amp=1.0):
     """C02/C04 case: dtmax tied to the tolerance by the property's precondition
     (rate*dtmax <= 2 tol^(1/5) for the high-order solvers, <= tol^(1/3) for the low-order ones)"""
     dim = dim or rng.randint(1, 4)
@@ -154,7 +159,7 @@ def accuracy_case(rng, solver, kinds, tol, dim=None, span=None, cx=False):
             rate = max(rate, math.hypot(a, b))
         rhs = {"fam": "blocks", "blocks": blocks}
     else:
-        rhs, y0, rate = system(rng, dim, span, t0, kinds=kinds)
+        rhs, y0, rate = system(rng, dim, span, t0, kinds=kinds, amp=amp)
     rate = max(rate, 0.3)
     lim = 2 * tol ** 0.2 / rate if solver in HIGH else tol ** (1.0 / 3) / rate
     dtmax = min(0.5, lim)
